@@ -22,19 +22,21 @@ Patterns ==
     nonadj   |-> [pars |-> <<<<"a", "b">>, <<"c", "d">>, <<"a", "d">>>>, kind |-> <<"chi2", "chi2", "chi2">>],
     mixed    |-> [pars |-> <<<<"a", "b">>, <<"m", "s">>, <<"b", "c">>>>, kind |-> <<"chi2", "nll", "chi2">>],
     reorder  |-> [pars |-> <<<<"a", "b">>, <<"c", "a">>>>, kind |-> <<"chi2", "chi2">>],     \* a member lists a shared name in another position
+    \* two XY members (straight lines with a common slope): an x uncertainty shared by both is projected with the CURRENT slope
+    xyshared |-> [pars |-> <<<<"a", "b">>, <<"a", "c">>>>, kind |-> <<"xy", "xy">>],
     single   |-> [pars |-> <<<<"a", "b">>>>, kind |-> <<"chi2">>] ]
 Pat == Patterns[Pattern]
 Members == 1..Len(Pat.pars)
 ParsOf(m) == Range(Pat.pars[m])
 AllPars == UNION {ParsOf(m) : m \in Members}
-Chi2Members == {m \in Members : Pat.kind[m] = "chi2"}
-NPoints(m) == IF Pat.kind[m] = "chi2" THEN 3 ELSE 5
+Chi2Members == {m \in Members : Pat.kind[m] \in {"chi2", "xy"}}
+NPoints(m) == IF Pat.kind[m] \in {"chi2", "xy"} THEN 3 ELSE 5
 Fits == {0} \cup Members          \* 0 = the multi-fit itself
 
 (* shared / own source catalogue: name -> members it is declared on *)
 ShCat ==
-  [ s12 |-> {1, 2}, s13 |-> {1, 3}, s123 |-> {1, 2, 3}, o1 |-> {1}, o2 |-> {2}, o3 |-> {3} ]
-ShNames == {n \in DOMAIN ShCat : ShCat[n] \subseteq Chi2Members}
+  [ s12 |-> {1, 2}, s13 |-> {1, 3}, s123 |-> {1, 2, 3}, o1 |-> {1}, o2 |-> {2}, o3 |-> {3}, x12 |-> {1, 2} ]     \* x12: on the x axis
+ShNames == {n \in DOMAIN ShCat : ShCat[n] \subseteq Chi2Members /\ (n = "x12" => Pattern = "xyshared")}
 
 VARIABLES node,      \* parameter name -> value index (the shared Nexus node)
           mcopy,     \* fit -> (parameter name -> value index): the minimiser's own copy
